@@ -656,7 +656,7 @@ func stepSides(fn *ssa.Function) (map[ssa.Value]string, map[*ssa.Alloc]string) {
 		}
 		// the field of the receiver, or of a struct embedded in the receiver
 		for d := 0; d < 2; d++ {
-			if base == ssa.Value(f.Params[0]) {
+			if sameRecvCopy(base, f.Params[0]) {
 				return fld, call.Call.Args[0]
 			}
 			if _, b2, ok := fieldNameOf(base); ok {
@@ -684,6 +684,9 @@ func stepSides(fn *ssa.Function) (map[ssa.Value]string, map[*ssa.Alloc]string) {
 		}
 		// the helper must be called on the iterator (or a struct embedded in it)
 		recv := call.Call.Args[0]
+		if u, ok := recv.(*ssa.UnOp); ok && u.Op == token.MUL {
+			recv = u.X // an embedded struct handed over by value
+		}
 		if _, b2, ok := fieldNameOf(recv); ok {
 			recv = b2
 		}
@@ -713,8 +716,45 @@ func stepSides(fn *ssa.Function) (map[ssa.Value]string, map[*ssa.Alloc]string) {
 
 // originSide traces a Sample value back to the step it was taken from.
 func originSide(v ssa.Value, cells map[*ssa.Alloc]string, depth int) string {
+	return originSideEnv(v, cells, depth, nil)
+}
+
+// mapBuiltByHelper: the map a lookup reads is the result of a small first-party helper that
+// fills it from one of its parameters (indexSamples(left.Samples)): the side of what is stored.
+func mapBuiltByHelper(m ssa.Value, cells map[*ssa.Alloc]string, depth int, env map[*ssa.Parameter]ssa.Value) string {
+	call, ok := unspill(m).(*ssa.Call)
+	if !ok {
+		return ""
+	}
+	callee := staticCallee(call)
+	if callee == nil || callee.Blocks == nil || len(callee.Blocks) > 12 || !isFirstParty(pkgPathOf(callee)) {
+		return ""
+	}
+	sub := map[*ssa.Parameter]ssa.Value{}
+	for i, q := range callee.Params {
+		if i < len(call.Call.Args) {
+			sub[q] = call.Call.Args[i]
+		}
+	}
+	res := ""
+	allInstrs(callee, func(in ssa.Instruction) {
+		if mu, ok := in.(*ssa.MapUpdate); ok {
+			if s := originSideEnv(mu.Value, cells, depth+1, sub); s != "" {
+				res = s
+			}
+		}
+	})
+	return res
+}
+
+func originSideEnv(v ssa.Value, cells map[*ssa.Alloc]string, depth int, env map[*ssa.Parameter]ssa.Value) string {
 	if depth > 12 || v == nil {
 		return ""
+	}
+	if q, ok := v.(*ssa.Parameter); ok && env != nil {
+		if a, ok := env[q]; ok {
+			return originSideEnv(a, cells, depth+1, nil)
+		}
 	}
 	switch x := v.(type) {
 	case *ssa.UnOp:
@@ -723,36 +763,42 @@ func originSide(v ssa.Value, cells map[*ssa.Alloc]string, depth int) string {
 		}
 		switch a := x.X.(type) {
 		case *ssa.IndexAddr:
-			return originSide(a.X, cells, depth+1)
+			return originSideEnv(a.X, cells, depth+1, env)
 		case *ssa.FieldAddr:
 			if al, ok := a.X.(*ssa.Alloc); ok {
 				if s, ok := cells[al]; ok {
 					return s
 				}
 			}
-			return originSide(a.X, cells, depth+1)
+			return originSideEnv(a.X, cells, depth+1, env)
 		case *ssa.Alloc:
 			for _, st := range storesTo(a) {
-				if s := originSide(st.Val, cells, depth+1); s != "" {
+				if s := originSideEnv(st.Val, cells, depth+1, env); s != "" {
 					return s
 				}
 			}
 		}
 	case *ssa.Extract:
 		if lk, ok := x.Tuple.(*ssa.Lookup); ok {
+			if s := mapBuiltByHelper(lk.X, cells, depth, env); s != "" {
+				return s
+			}
 			// values stored into that map
 			for _, ref := range *lk.X.Referrers() {
 				if mu, ok := ref.(*ssa.MapUpdate); ok {
-					if s := originSide(mu.Value, cells, depth+1); s != "" {
+					if s := originSideEnv(mu.Value, cells, depth+1, env); s != "" {
 						return s
 					}
 				}
 			}
 		}
 	case *ssa.Lookup:
+		if s := mapBuiltByHelper(x.X, cells, depth, env); s != "" {
+			return s
+		}
 		for _, ref := range *x.X.Referrers() {
 			if mu, ok := ref.(*ssa.MapUpdate); ok {
-				if s := originSide(mu.Value, cells, depth+1); s != "" {
+				if s := originSideEnv(mu.Value, cells, depth+1, env); s != "" {
 					return s
 				}
 			}
@@ -760,7 +806,7 @@ func originSide(v ssa.Value, cells map[*ssa.Alloc]string, depth int) string {
 	case *ssa.Phi:
 		set := map[string]bool{}
 		for _, e := range x.Edges {
-			if s := originSide(e, cells, depth+1); s != "" {
+			if s := originSideEnv(e, cells, depth+1, env); s != "" {
 				set[s] = true
 			}
 		}
